@@ -68,7 +68,7 @@ def gen(rng, idx, tier, seed):
     k = [1, 1, 2, 3, 4][int(rng.integers(5))]
     chosen = [names[i] for i in rng.permutation(4)[:k]]
     win = [[d, gen_window(rng, dims[d])] for d in chosen]
-    spec = {'file': fs, 'window': win}
+    spec = {'file': fs, 'window': win, 'disk': bool(idx % 6 == 2)}
     if rng.random() < 0.2 and not fs.get('withcf'):
         # time metadata carried by SDATE/STIME/TSTEP alone (no TFLAG
         # variable), which getTimes supports
@@ -85,12 +85,25 @@ def norm(sel, n):
 
 
 def run(spec, res):
+    from .. import harness
+    with harness.casedir() as d, harness.handles() as h:
+        run_in(spec, res, d, h)
+
+
+def run_in(spec, res, d, h):
+    from .. import harness
     from ..refsel import dec_sel
     fs = spec['file']
     f = gen_ioapi.build(fs)
     if spec.get('notflag'):
         del f.variables['TFLAG']
         res.facet('no-TFLAG-variable')
+    elif spec.get('disk'):
+        # the IOAPI file saved and opened again from disk
+        g = harness.to_disk(f, d, h, fmt='ioapi')
+        if g is not None:
+            f = g
+            res.facet('source:disk')
     kw = {d: dec_sel(s) for d, s in spec['window']}
     x0, y0 = float(f.XORIG), float(f.YORIG)
     xc, yc = float(f.XCELL), float(f.YCELL)
